@@ -112,6 +112,9 @@ SelectRules ==
           ELSE IF DS!FoldSeq(DS!Render(Ev.ast)) # DS!FoldSeq(p) THEN <<"HarnessAstMismatch">>
           ELSE Exact(Ev.kind, Ev.ast, Ev.status, Ev.index)
        ELSE IF p = <<>> THEN Exact(Ev.kind, <<>>, Ev.status, Ev.index)     \* empty or all-NUL: first of the kind
+       \* a pattern the regex library itself refuses to compile (the harness tried, independently) must give an error -
+       \* whatever was selected before
+       ELSE IF Has("bad") /\ Ev.bad = 1 /\ Ev.status = 0 THEN <<"MalformedAccepted">>
        ELSE Weak(Ev.kind, Ev.status, Ev.index)
 
 SelectIsExact == SelectShapeOK /\ (Ev.op = "F" \/ (Ev.op = "N" /\ Ev.len = 0) \/ (Ev.op = "S" /\ (Ev.g = 1 \/ Strip(SubSeq(Ev.pat, 1, Ev.len)) = <<>>)))
